@@ -88,6 +88,21 @@ def r_tree_fill(ck: Checker) -> None:
     (ck.holds if ok else ck.violation)("R-TREE-FILL", g, g.node, what, **({} if ok else {"construct": f"is_in_tree returns {[norm(r.value) for r in rets if r.value is not None]}"}))
 
 
+def _tree_node_local(fn: ast.FunctionDef, e: ast.expr) -> bool:
+    """A local of a Tree query that holds a node: bound to self.get_parent(...) or iterating self.get_ancestors(...)."""
+    if not isinstance(e, ast.Name):
+        return False
+    for n in ast.walk(fn):
+        if isinstance(n, (ast.Assign, ast.NamedExpr)):
+            tgs = n.targets if isinstance(n, ast.Assign) else [n.target]
+            if any(isinstance(t, ast.Name) and t.id == e.id for t in tgs) and norm(n.value).startswith(("self.get_parent(", "self._root")):
+                return True
+        if isinstance(n, (ast.For, ast.comprehension)) and isinstance(n.target, ast.Name) and n.target.id == e.id \
+                and "get_ancestors(" in norm(n.iter):
+            return True
+    return False
+
+
 def r_tree_ident(ck: Checker) -> None:
     ncls = node_classes(ck)
     n = 0
@@ -102,9 +117,9 @@ def r_tree_ident(ck: Checker) -> None:
                 continue
             el = node_evidence(l, f, ncls) or (norm(l) == "self._root" and "the tree's root")
             er = node_evidence(r, f, ncls) or (norm(r) == "self._root" and "the tree's root")
-            if (norm(l) in ("parent", "a", "ancestor", "candidate") or norm(l).startswith("self.get_parent(")) and not el:
+            if (_tree_node_local(f.node, l) or norm(l).startswith("self.get_parent(")) and not el:
                 el = "node local"
-            if (norm(r) in ("parent", "a", "ancestor", "candidate") or norm(r).startswith("self.get_parent(")) and not er:
+            if (_tree_node_local(f.node, r) or norm(r).startswith("self.get_parent(")) and not er:
                 er = "node local"
             if not (el and er):
                 continue
